@@ -8,7 +8,7 @@ from symir import Machine
 def main():
     h = sys.argv[1]; defs = sys.argv[2:]
     t = time.time(); ll = build.build_ir(h, defs); print('built', ll, '%.1fs' % (time.time() - t))
-    t = time.time(); m = parse_module(open(ll).read()); mc = Machine(m, {'max_instr': int(os.environ.get('MAXI', 5000000))}); print('parsed %.1fs' % (time.time() - t))
+    t = time.time(); m = parse_module(open(ll).read()); mc = Machine(m, {'max_instr': int(os.environ.get('MAXI', 5000000)), 'check_nsw': bool(os.environ.get('NSW'))}); print('parsed %.1fs' % (time.time() - t))
     work = [[]]; n = 0; t = time.time()
     maxp = int(os.environ.get('MAXP', 1000))
     while work and n < maxp:
